@@ -40,7 +40,9 @@ def run(rep: common.Report, tier: str, seed: int, replay=None) -> int:
                dict(screening=True, adaptive=True, ramp=False, solve_time=0.08),
                dict(screening=False, adaptive=False, ramp=True, solve_time=0.12),
                dict(screening=False, adaptive=True, ramp=False, solve_time=0.15, four_terminals=True),
-               dict(screening=False, adaptive=True, ramp=False, solve_time=0.1, min_points=900, mel=0.5)]
+               dict(screening=False, adaptive=True, ramp=False, solve_time=0.1, min_points=900, mel=0.5),
+               # two continuations from one in-memory seed solution, with screening (the seed's stored fields are inputs)
+               dict(screening=True, adaptive=True, ramp=False, solve_time=0.06, seeded_twice=True)]
     if tier == "thorough":
         configs += [dict(screening=True, adaptive=True, ramp=True, solve_time=0.08), dict(screening=False, adaptive=True, ramp=True, solve_time=0.3, mel=0.6)]
     variants = [(1, 0), (4, 1), (16, 2), (2, 3)] if tier == "quick" else [(1, 0), (2, 1), (4, 2), (8, 3), (16, 4), (16, 5), (1, 6), (3, 7)]
@@ -62,6 +64,11 @@ def run(rep: common.Report, tier: str, seed: int, replay=None) -> int:
             if "error" in ref:
                 rep.not_shown("reproducibility worker failed", {"config": cfg, "error": ref["error"]})
                 continue
+            for (j, r) in mine:
+                if r.get("repeat_diff"):
+                    rep.violation("two runs with identical inputs (continuations from the same seed solution) inside one process are "
+                                  "not bit-identical", {"config": cfg, "first_differing": r["repeat_diff"]})
+                    break
             for (j, r) in mine[1:]:
                 case = {"config": {k: v for k, v in cfg.items()}, "threads": [ref_job[2], j[2]], "hashseeds": [ref_job[3], j[3]]}
                 if "error" in r:
